@@ -3,22 +3,28 @@
    the same key more than once), another cached name, then an event that must empty or expire the cache (server-list
    change, reinit, time beyond the lifetimes) and the same questions again: none may be answered without traffic.  *)
 EXTENDS Naturals, Sequences, FiniteSets, TLC, Json
-CONSTANTS Pairs, Flushes, Ttls
-VARIABLES pair, fl, ttl, done
+CONSTANTS Pairs, Flushes, Ttls, Ttls2
+VARIABLES pair, fl, ttl, ttl2, done
 Q(t, api, name) == [op |-> api, t |-> t, name |-> name, qt |-> 1]
 R(k) == [op |-> "reply", tx |-> "name:n", kind |-> "ok", ttl |-> k]      \* to the latest unanswered transmission
 First == CASE pair = "qq" -> <<Q(1, "query", "n1.test"), Q(2, "query", "n1.test")>>
            [] pair = "ql" -> <<Q(1, "query", "n1.test"), Q(2, "lquery", "n1.test")>>
            [] pair = "qcase" -> <<Q(1, "query", "n1.test"), Q(2, "query", "N1.TEST")>>
            [] pair = "qqq" -> <<Q(1, "query", "n1.test"), Q(2, "query", "n1.test"), Q(3, "send", "n1.test")>>
-Answers == [i \in 1..Len(First) |-> R(ttl)]
+(* the answers to the requests for one key may carry different TTLs (ttl2 for all but the first answer given): the
+   entry that stays must live by its own TTLs, not by those of the answer it replaced; "timemid" ends between the two
+   lifetimes *)
+Answers == [i \in 1..Len(First) |-> R(IF i = 1 THEN ttl ELSE ttl2)]
+MaxT == IF ttl > ttl2 THEN ttl ELSE ttl2
+MinT == IF ttl < ttl2 THEN ttl ELSE ttl2
 Flush == CASE fl = "setadd" -> <<[op |-> "setservers", csv |-> "10.0.0.1,10.0.0.2"]>>
            [] fl = "reinit" -> <<[op |-> "reinit"]>>
-           [] fl = "time" -> <<[op |-> "adv", ms |-> 1000 * ttl + 1000]>>
+           [] fl = "time" -> <<[op |-> "adv", ms |-> 1000 * MaxT + 1000]>>
+           [] fl = "timemid" -> <<[op |-> "adv", ms |-> 1000 * MinT + 1000]>>
            [] fl = "none" -> <<>>
-Hist == First \o Answers \o <<Q(7, "query", "n2.test"), R(ttl + 100)>> \o Flush
+Hist == First \o Answers \o <<Q(7, "query", "n2.test"), R(MaxT + 100)>> \o Flush
         \o <<Q(8, "query", "n1.test"), Q(9, "query", "n2.test")>>
-GInit == pair \in Pairs /\ fl \in Flushes /\ ttl \in Ttls /\ done = FALSE
-GNext == ~done /\ done' = TRUE /\ UNCHANGED <<pair, fl, ttl>>
+GInit == pair \in Pairs /\ fl \in Flushes /\ ttl \in Ttls /\ ttl2 \in Ttls2 /\ done = FALSE
+GNext == ~done /\ done' = TRUE /\ UNCHANGED <<pair, fl, ttl, ttl2>>
 Emit == PrintT(ToJson([cfg |-> [nsrv |-> 1, tries |-> 2, timeout |-> 1000, seed |-> 1, qcache |-> 3600], steps |-> Hist]))
 =============================================================================
